@@ -350,6 +350,14 @@ def build_cases(rep, tier, rng):
             ref = qp_reference(prob)
             c["ref"] = None if ref is None else ref.tolist()
         cases.append(c)
+    # tolerance mismatch: the sub-problem solver is allowed to stop far earlier (1e-5, 1e-6) than the augmented-Lagrangian
+    # loop (1e-9, 1e-10); with active curved constraints the sub-problem is not quadratic, so its solver does stop in between
+    for i in range(8 if tier == "quick" else 60):
+        m = [2, 4][i % 2]
+        prob = random_problem(rng, m, "nonlinear")
+        cases.append(dict(mode="genuine", prob=prob, kappa0=KAPPAS[m][i % 2], lam0=[0.0] * m,
+                          x0=[rng.uniform(-2, 2) for _ in range(N)], script=None,
+                          sub=dict(tol=[1e-5, 1e-6][i % 2]), al=dict(tol=[1e-9, 1e-10][(i // 2) % 2], max_al_iters=60)))
     # Newton-only mode can never return normally: it must raise
     cases.append(dict(mode="newton_only", prob=random_problem(rng, 2, "active"), kappa0=KAPPAS[2][0], lam0=[0.0, 0.0],
                       x0=[0.5, 0.5, 0.5], al=dict(use_newton_only=True, max_al_iters=4), script=None))
